@@ -2,6 +2,7 @@ mod cfgx;
 mod common;
 mod dequex;
 mod model;
+mod scalex;
 mod schedx;
 mod seqx;
 mod sketchx;
@@ -72,6 +73,9 @@ fn main() {
             common::solo_install();
             println!("{}", seqx::overshoot());
         }
+        "scalex" => {
+            println!("{}", scalex::run(args.get(2).map(|s| s.as_str()).unwrap_or("all")));
+        }
         "cfgx" => {
             common::solo_install();
             println!("{}", cfgx::run().to_json());
@@ -105,6 +109,8 @@ fn main() {
                     }
                 }
                 v
+            } else if w.starts_with("scalex|") {
+                scalex::replay(w)
             } else if w.starts_with("schedx|") {
                 schedx::replay(w)
             } else if w.starts_with("dequex|") {
